@@ -17,7 +17,9 @@ type apiGen struct {
 
 func (g *apiGen) v() string { g.n++; return fmt.Sprintf("v%d", g.n) }
 
-func (g *apiGen) add(format string, a ...interface{}) { g.stmt = append(g.stmt, fmt.Sprintf(format, a...)) }
+func (g *apiGen) add(format string, a ...interface{}) {
+	g.stmt = append(g.stmt, fmt.Sprintf(format, a...))
+}
 
 func (g *apiGen) emit(obs string) {
 	g.c.run("api", strings.Join(g.stmt, ";")+";!"+obs)
